@@ -514,6 +514,7 @@ def run(ctx):
     ctx.cov["trace_events"] = sum(len(s) for s in segs)
     ctx.cov["trace_segments"] = {"replay": sum(1 for s in seg_src if s["kind"] == "replay"), "fuzz": len(fz),
                                  "gotest": len(tsegs), "rejected": len(real_rej)}
+    unreproduced = []
     for k in real_rej:
         src = seg_src[k]
         # diagnosis: the segment alone, invariants as INVARIANTs
@@ -524,16 +525,24 @@ def run(ctx):
             "no behaviour of Reload.tla emits event #%d %s" % (at, json.dumps(ev, sort_keys=True))
         if src["kind"] == "replay":
             c = src["case"]
-            again = run_replay(ctx, binary, [c])[c["id"]]
-            rj, _ = validate_segments(ctx, [segment_from_harness(again["trace"])], held, not held, "trace-recheck")
-            if not rj:
-                raise vlib.InfraError("trace rejection not reproduced for schedule [%s]" % short(c))
+            hit = False
+            for _try in range(5):        # what the gates do not order is up to the scheduler: a few clean re-executions
+                again = run_replay(ctx, binary, [c])[c["id"]]
+                rj, _ = validate_segments(ctx, [segment_from_harness(again["trace"])], held, not held, "trace-recheck")
+                if rj:
+                    hit = True
+                    break
+            if not hit:
+                unreproduced.append(short(c))
+                continue
         ctx.violation({"kind": "trace", "held_to": sorted(held), "source": {k2: v for k2, v in src.items() if k2 != "case"},
                        "schedule": short(src["case"]) if "case" in src else None, "events": segs[k][:600], "why": why},
                       "a recorded execution of the real runtime is not a behaviour of Reload.tla%s: %s (%s)" % (
                           (" even with " + "+".join(held)) if held else "", why, src["kind"]))
         if len(ctx.violations) >= 3:
             break
+    if unreproduced and not ctx.violations:
+        raise vlib.InfraError("trace rejection(s) not reproduced in 5 clean re-executions each, for schedule(s) %s" % unreproduced[:4])
 
     ctx.cov["distinct_nontrivial"] = len(nontriv)
     ctx.cov["exhaustive"] = True
